@@ -519,14 +519,20 @@ Definition elem_segs (d : elem) : list seg :=
 Definition raw_child (n : node) : Prop :=
   match n with
   | Node (KText o) _ => toktype_eqb (t_typ o) TDynamicText = true \/
-                        (bytes_ok (t_lit o) /\ toktype_eqb (t_typ o) TDynamicText = false /\ toktype_eqb (t_typ o) TPreserveText = false)
+                        (bytes_ok (t_lit o) /\ toktype_eqb (t_typ o) TDynamicText = false)
   | Node (KScript _) _ => True
   | _ => False
   end.
 
+(** preserved text: the line break that ends it is written as an entity *)
+Definition preserve_html (t : bytes) : bytes :=
+  let t' := trim_suffix [10] t in
+  if negb (Nat.eqb (List.length t') (List.length t)) then t' ++ lit "&#x000A;" else t.
+
 Definition raw_segs (n : node) : list seg :=
   match n with
-  | Node (KText o) _ => if toktype_eqb (t_typ o) TDynamicText then [SRaw o] else [SLit (t_lit o)]
+  | Node (KText o) _ => if toktype_eqb (t_typ o) TDynamicText then [SRaw o]
+                        else if toktype_eqb (t_typ o) TPreserveText then [SLit (preserve_html (t_lit o))] else [SLit (t_lit o)]
   | Node (KScript o) _ => [SRaw o]
   | _ => []
   end.
@@ -543,7 +549,8 @@ Fixpoint dyn_node (n : node) : Prop :=
     | KDoctype _ => True
     | KComment o _ => (t_lit o <> [] /\ bytes_ok (t_lit o)) \/ (t_lit o = [] /\ kids_ok ch /\ all ch)
     | KFilter FJavaScript _ _ | KFilter FCss _ _ => kids_ok ch /\ all ch
-    | KFilter FText o _ => (t_lit o = lit "escaped" /\ kids_ok ch /\ all ch) \/ (t_lit o = lit "plain" /\ Forall raw_child ch)
+    | KFilter FText o _ => (t_lit o = lit "escaped" /\ kids_ok ch /\ all ch) \/ (t_lit o = lit "plain" /\ Forall raw_child ch) \/
+                           (t_lit o = lit "preserve" /\ Forall raw_child ch)
     | KSilent o _ _ =>
       match ch with
       | [] => any_prefix c_elseStatements (t_lit o) = false                                                (* a Go line, `- }` *)
@@ -591,7 +598,9 @@ Fixpoint segs_of (nc fl : bool) (n : node) : list seg :=
       end
     | KFilter FJavaScript _ _ => [SLit (lit "<script>" ++ [10])] ++ kids false ch ++ [SLit (lit "</script>")]
     | KFilter FCss _ _ => [SLit (lit "<style>" ++ [10])] ++ kids false ch ++ [SLit (lit "</style>")]
-    | KFilter FText o _ => if beqb (t_lit o) (lit "plain") then List.concat (map raw_segs ch) else kids false ch
+    | KFilter FText o _ => if beqb (t_lit o) (lit "plain") then List.concat (map raw_segs ch)
+                           else if beqb (t_lit o) (lit "preserve") then List.concat (map raw_segs ch) ++ [SLit [10]]
+                           else kids false ch
     | KSilent o _ _ =>
       let stmt := go_trim_space (t_lit o) in
       let body := kids false ch in
@@ -1025,15 +1034,28 @@ Proof.
   cbn [emit_list map List.concat]. destruct c as [k ch]. rewrite emit_node_unfold. unfold emit_node_body.
   destruct k; try contradiction; cbn [raw_child raw_segs] in *.
   - (* text *)
-    cbn [fst snd]. unfold emit_text. destruct Hc as [Hd|(Hok & Hd & Hp)].
+    cbn [fst snd]. unfold emit_text. destruct Hc as [Hd|(Hok & Hd)].
     + rewrite Hd. destruct (raw_run ind m sm origin st H) as [M R].
       destruct (IH false false _ M) as (m2 & R2). exists m2. eapply Runu_trans; [split; [exact M|exact R]|exact R2].
-    + rewrite Hd, Hp. pose proof H as [He Hl]. rewrite Hl. cbv zeta.
+    + rewrite Hd. pose proof H as [He Hl]. rewrite Hl. cbv zeta.
       assert (Hu : wl_unesc (if m then Lou ind else Lcu ind) = true) by (destruct m; reflexivity). rewrite Hu.
       rewrite Bool.orb_true_r. cbn [negb].
       assert (R : reads_as (chunk_text_plain (t_lit origin)) (t_lit origin)) by (apply reads_as_quote; exact Hok).
-      pose proof (chunk_run_u ind m _ _ st H R) as R1.
-      destruct (IH false true _ (proj1 R1)) as (m2 & R2). exists m2. eapply Runu_trans; eassumption.
+      destruct (toktype_eqb (t_typ origin) TPreserveText) eqn:Hp; cbn [andb].
+      * (* preserved text *)
+        unfold preserve_html. cbv zeta.
+        destruct (negb (Nat.eqb (List.length (trim_suffix [10] (t_lit origin))) (List.length (t_lit origin)))).
+        -- assert (Hok' : bytes_ok (trim_suffix [10] (t_lit origin))).
+           { unfold trim_suffix. destruct (has_suffix _ _); [|exact Hok]. unfold bytes_ok in *.
+             match goal with |- Forall _ (firstn ?k ?l) => rewrite <- (firstn_skipn k l) in Hok; apply Forall_app in Hok; exact (proj1 Hok) end. }
+           assert (R' : reads_as (chunk_text_plain (trim_suffix [10] (t_lit origin)) ++ lit "&#x000A;") (trim_suffix [10] (t_lit origin) ++ lit "&#x000A;")).
+           { apply reads_as_app; [apply reads_as_quote; exact Hok'|apply reads_as_plain; repeat constructor; cbn; try lia; discriminate]. }
+           pose proof (chunk_run_u ind m _ _ st H R') as R1.
+           destruct (IH false true _ (proj1 R1)) as (m2 & R2). exists m2. eapply Runu_trans; eassumption.
+        -- pose proof (chunk_run_u ind m _ _ st H R) as R1.
+           destruct (IH false true _ (proj1 R1)) as (m2 & R2). exists m2. eapply Runu_trans; eassumption.
+      * pose proof (chunk_run_u ind m _ _ st H R) as R1.
+        destruct (IH false true _ (proj1 R1)) as (m2 & R2). exists m2. eapply Runu_trans; eassumption.
   - (* script *)
     cbn [fst snd]. destruct (raw_run ind m sm origin st H) as [M R].
     destruct (IH false false _ M) as (m2 & R2). exists m2. eapply Runu_trans; [split; [exact M|exact R]|exact R2].
@@ -1399,7 +1421,7 @@ Proof.
       destruct (kids_run sm ch IH Hch Hko ind true _ (Run_ms ind R1)) as (m2 & R2).
       pose proof (chunk_run ind m2 _ _ _ (Run_ms ind R2) Rc) as R3.
       exists true. split; [|reflexivity]. eapply Run_trans; [exact R1|]. eapply Run_trans; [exact R2|exact R3].
-    + destruct Hs as [(Hl & Hko & Hch)|(Hl & Hraw)]; rewrite Hl.
+    + destruct Hs as [(Hl & Hko & Hch)|[(Hl & Hraw)|(Hl & Hraw)]]; rewrite Hl.
       * (* :escaped *)
         apply dyn_all_eq in Hch. cbn [beqb orb]. change (beqb (lit "escaped") (lit "plain")) with false. change (beqb (lit "escaped") (lit "preserve")) with false. cbn [orb].
         destruct (kids_run sm ch IH Hch Hko ind m st H) as (m2 & R2). exists m2. split; [exact R2|reflexivity].
@@ -1411,6 +1433,16 @@ Proof.
         exists m'. split; [|reflexivity]. split.
         -- split; [exact E5|]. unfold set_unesc at 1. cbn [set_local snd]. rewrite L5. destruct m'; reflexivity.
         -- exists code. split; [|exact D5]. unfold set_unesc at 1. rewrite txt_set_local, T5. unfold set_unesc. rewrite txt_set_local. reflexivity.
+      * (* :preserve: the same, and a line break after the last line *)
+        change (beqb (lit "preserve") (lit "plain")) with false. change (beqb (lit "preserve") (lit "preserve")) with true. cbn [orb].
+        assert (Hu : MSu ind m (set_unesc true st)).
+        { destruct H as [He Hl0]. split; [exact He|]. unfold set_unesc. cbn [set_local snd]. rewrite Hl0. destruct m; reflexivity. }
+        destruct (raw_list_run sm ind ch Hraw false m _ Hu) as (m1 & R5).
+        pose proof (chunk_run_u ind m1 (lit "\n") [10] _ (proj1 R5) reads_as_escaped_newline) as R6.
+        destruct (Runu_trans _ _ _ _ _ _ _ _ _ R5 R6) as ([E7 L7] & code & T7 & D7).
+        exists true. split; [|reflexivity]. split.
+        -- split; [exact E7|]. unfold set_unesc at 1. cbn [set_local snd]. rewrite L7. reflexivity.
+        -- exists code. split; [|exact D7]. unfold set_unesc at 1. rewrite txt_set_local, T7. unfold set_unesc. rewrite txt_set_local. reflexivity.
 Qed.
 
 (** * a whole template with a body of this fragment *)
